@@ -34,7 +34,7 @@ LEVEL_NOTE = "Assurance = weaker of (discipline theorem + regenerated lock table
 TECHNIQUE = "Lean 4 proof (RW-lock discipline ⇒ no conflicting access pair, all schedules) + lock facts regenerated from source + race-detector soak of each observer role"
 
 TYPES = ["internal/k8s/configuration.go:Configuration", "internal/configs/configurator.go:Configurator", "internal/k8s/secrets/store.go:LocalSecretStore"]
-ROLES = ["insight", "telemetry", "leader", "informer", "rotation"]
+ROLES = ["insight", "telemetry", "leader", "informer", "rotation", "secrets"]
 
 
 def regenerate(tier):
@@ -118,7 +118,7 @@ def regenerate(tier):
 
 
 def gen(rng, tier):
-    rounds = 40 if tier == "quick" else 400
+    rounds = 60 if tier == "quick" else 400
     reps = 1 if tier == "quick" else 3
     cases = []
     for rep in range(reps):
@@ -200,7 +200,10 @@ def sig_informer(case, issue):
 
 def sig_secretstore(case, issue):
     """S-C18-d: telemetry takes len() of the secret store's map, which the worker writes; the store has no lock."""
-    return "role=telemetry" in issue and "secrets.(*LocalSecretStore)" in issue
+    # exactly that pair: the len() is evaluated by the caller of GetSecretReferenceMap (the collector; here the harness' observer), the
+    # write is inside the store. A read INSIDE the store (an iteration, a lookup) or the runtime's own fatal error is another race (seed C18-5).
+    return ("role=telemetry" in issue or "role=secrets" in issue) and "fatal error" not in issue and \
+        re.search(r"R:(harness\(inlined-callee\)|telemetry\.\(\*Collector\)\.Secrets@\S*) <-> W:secrets\.\(\*LocalSecretStore\)\.", issue) is not None
 
 
 SIGNATURES = {"configurator-maps-read-by-observers-without-lock": sig_configurator,
